@@ -7,6 +7,7 @@ package main
 
 import (
 	"bufio"
+	"bytes"
 	"encoding/json"
 	"fmt"
 	"os"
@@ -40,6 +41,9 @@ func c03one(line int, r *rec, stats map[string]int) {
 	if len(segs) == 0 {
 		return
 	}
+	var first []byte
+	var firstMode string
+	reported := false
 	for _, mode := range vwalk.Modes {
 		var obs vwalk.Node
 		func() {
@@ -64,7 +68,25 @@ func c03one(line int, r *rec, stats map[string]int) {
 		if d := vwalk.Compare(r.Val, obs, "root"); d != "" {
 			emit(map[string]interface{}{"line": line, "mode": mode, "diff": d, "segs": r.Segs, "clean": r.Clean})
 		}
+		// every presentation supplies the same segment bytes: the observation must not depend on what lies
+		// beyond a segment (spare capacity, the neighbouring segment of an unmarshalled buffer)
+		ob, _ := json.Marshal(obs)
+		if first == nil {
+			first, firstMode = ob, mode
+		} else if !bytes.Equal(first, ob) && !reported {
+			reported = true
+			emit(map[string]interface{}{"line": line, "mode": firstMode + " vs " + mode,
+				"diff": fmt.Sprintf("root: result depends on bytes outside the segments: %s in %s, %s in %s", clip(first), firstMode, clip(ob), mode),
+				"segs": r.Segs, "clean": r.Clean})
+		}
 	}
+}
+
+func clip(b []byte) string {
+	if len(b) > 300 {
+		return string(b[:300]) + "..."
+	}
+	return string(b)
 }
 
 func main() {
